@@ -249,6 +249,10 @@ def make_index(ix, n, seed):
     if k == "dtz":
         return pd.DatetimeIndex((rng.permutation(n).astype("int64") * 3600 * 10 ** 9).view("M8[ns]"), name=name
                                 ).tz_localize("UTC").tz_convert("Europe/Berlin")
+    if k == "dup":      # repeated labels, as pd.concat without ignore_index leaves them
+        return pd.Index(np.arange(n, dtype="int64") % max(1, (n + 1) // 2), name=name)
+    if k == "dup_str":
+        return pd.Index(["k%d" % (i % 3) for i in range(n)], dtype=object, name=name)
     if k == "multi":
         a = rng.integers(0, 3, n)
         b = rng.permutation(n)
